@@ -10,7 +10,7 @@ def rand_flat(ctx, n, pattern=None, kind=None, arrow=True, ncols=None):
     rng = ctx.rng
     ty = gen.rand_ty(rng, nfields=ncols)
     labels = gen.rand_labels(rng, n, kind=kind, pattern=pattern or rng.choice(
-        ["dup_unsorted", "dup_unsorted", "dup_sorted", "unique_unsorted", "unique_sorted", "range"]))
+        ["dup_unsorted", "dup_unsorted", "dup_sorted", "unique_unsorted", "unique_sorted", "range", "extreme"]))
     cols = [[nm, t, [gen.rand_cell(rng, t, p_nan=(0.1 if arrow else 0.0)) for _ in range(n)]] for nm, t in ty]
     return {"index": labels, "cols": cols}
 
